@@ -95,6 +95,7 @@ func TestC18OracleRejectsAndAccepts(t *testing.T) {
 
 func TestC18Generate(t *testing.T) {
 	p := c18{}
+	defer p.Close()
 	cs := p.Generate(rand.New(rand.NewSource(1)), "quick")
 	single, nt := 0, 0
 	for _, c := range cs {
@@ -103,7 +104,7 @@ func TestC18Generate(t *testing.T) {
 				single++
 			}
 		}
-		if c.NonTrivial {
+		if c.NonTrivial || c.Stream == "gennames-stub" { // the stub listings include empty, failing and panicking ones (c18_gennames.go)
 			nt++
 		}
 		got := hist.NewWorld().Exec(c.Hist)
@@ -176,5 +177,64 @@ func TestC18Gennames(t *testing.T) {
 	got := hist.NewWorld().Exec(c.Hist)
 	if v := (c18{}).Oracle(c, got); !strings.Contains(v, "a name the import does not provide") {
 		t.Errorf("wrong table entry handed to ImportNames: verdict %q", v)
+	}
+}
+
+// Every output of a history is judged on its own: a good first render does not excuse a bad
+// second one, and a fragment rendered with the File has to use the qualifiers the File's
+// import block declares afterwards.
+func TestC18OraclePerOutput(t *testing.T) {
+	p := c18{}
+	paths := []string{"math/rand", "crypto/rand"}
+	mk := func(frag bool) *Case {
+		h := hist.History{{Kind: "newfile", F: 0, A: "p"}, {Kind: "importalias", F: 0, A: "crypto/rand", B: "rand"}}
+		if frag {
+			h = append(h, hist.Op{Kind: "rcode", F: 0}, hist.Op{Kind: "render", F: 0}, hist.Op{Kind: "imports", F: 0})
+		} else {
+			h = append(h, hist.Op{Kind: "render", F: 0}, hist.Op{Kind: "render", F: 0}, hist.Op{Kind: "imports", F: 0})
+		}
+		return &Case{Hist: h, Meta: map[string]interface{}{"paths": paths, "told": map[string]string{}}}
+	}
+	w := func(s string) hist.Obs { return hist.Obs{Kind: "write", Out: s} }
+	good := "package p\n\nimport (\n\trand1 \"crypto/rand\"\n\t\"math/rand\"\n)\n\nvar _ = rand.V0\nvar _ = rand1.V1\n"
+	tab := hist.Obs{Kind: "imports"}
+	if m := p.Oracle(mk(false), []hist.Obs{w(good), w(good), tab}); m != "" {
+		t.Fatalf("good history rejected: %s", m)
+	}
+	if m := p.Oracle(mk(true), []hist.Obs{w("_ = f(rand.V0, rand1.V1)"), w(good), tab}); m != "" {
+		t.Fatalf("good fragment history rejected: %s", m)
+	}
+	for name, c := range map[string]struct {
+		frag bool
+		obs  []hist.Obs
+		want string
+	}{
+		// the redundant alias written although the name is taken: two imports bind rand
+		"second output declares rand twice": {false, []hist.Obs{w(good), w("package p\n\nimport (\n\trand \"crypto/rand\"\n\t\"math/rand\"\n)\n\nvar _ = rand.V0\nvar _ = rand.V1\n"), tab}, "both bind the name rand"},
+		// renamed, but the import line lost the explicit alias
+		"second output drops the alias":     {false, []hist.Obs{w(good), w("package p\n\nimport (\n\t\"crypto/rand\"\n\t\"math/rand\"\n)\n\nvar _ = rand.V0\nvar _ = rand1.V1\n"), tab}, "File.Render after 1 earlier output"},
+		"second output loses an import":     {false, []hist.Obs{w(good), w("package p\n\nimport \"math/rand\"\n\nvar _ = rand.V0\nvar _ = rand1.V1\n"), tab}, "not imported"},
+		"qualifier changes between outputs": {false, []hist.Obs{w(good), w("package p\n\nimport (\n\trand2 \"crypto/rand\"\n\t\"math/rand\"\n)\n\nvar _ = rand.V0\nvar _ = rand2.V1\n"), tab}, "is qualified by rand1 in the output of operation 2 and by rand2"},
+		"fragment uses another qualifier":   {true, []hist.Obs{w("_ = f(rand.V0, rand.V1)"), w(good), tab}, "is qualified by rand in the output of operation 2 and by rand1"},
+		"fragment writes a bare reference":  {true, []hist.Obs{w("_ = f(rand.V0, V1)"), w(good), tab}, "without a qualifier"},
+		"second render missing":             {false, []hist.Obs{w(good)}, "has no observation"},
+		"second render fails":               {false, []hist.Obs{w(good), {Kind: "fmterr", Out: "x"}, tab}, "was not rendered"},
+	} {
+		if m := p.Oracle(mk(c.frag), c.obs); !strings.Contains(m, c.want) {
+			t.Errorf("%s: want %q, got %q", name, c.want, m)
+		}
+	}
+	// the streams exist, are tagged, and hold on the unchanged tree
+	n := map[string]int{}
+	for _, c := range c18RedundantAlias() {
+		for _, tg := range c.Tags {
+			n[tg]++
+		}
+		if v := p.Oracle(c, hist.NewWorld().Exec(c.Hist)); v != "" {
+			t.Fatalf("oracle fails on the unchanged tree: %s\n%s", v, c.Hist.Sexp())
+		}
+	}
+	if n["redundant-alias"] != 2*len(StdPackages()) || n["redundant-alias+collision"] < 12*len(StdPackages()) || n["fragment-then-render"] == 0 || n["rendered-twice"] != n["redundant-alias"]+n["redundant-alias+collision"] {
+		t.Errorf("tags: %v", n)
 	}
 }
